@@ -838,6 +838,20 @@ func runBatch(c Check, o DriverOpts, scratch string, b Batch, m *Merged, mu *syn
 		}
 	}
 	if val == "" {
+		// killed without a panic (e.g. by a signal the code under test should
+		// have handled): the check may recognise the case from its journal
+		if cj, ok := c.(CrashJudge); ok && werr != nil {
+			if handled, v := cj.JudgeCrash(jdesc, "exit: "+werr.Error(), clip(stderr, 2000)); handled {
+				m.Counts["evaluations"]++
+				m.Counts["expected_process_deaths_judged"]++
+				if v != nil {
+					v.Property, v.Batch, v.Seed = c.ID(), b.Name, b.Seed
+					m.Viols = append(m.Viols, *v)
+					m.VKeys[v.Key]++
+				}
+				return
+			}
+		}
 		m.Broken = append(m.Broken, fmt.Sprintf("worker for batch %s exited (%v) without result and without panic: %s", b.Name, werr, clip(stderr, 500)))
 		return
 	}
